@@ -507,7 +507,9 @@ fn body(space: Space) -> impl Fn(&Ch) -> Run + Sync + Send {
             });
         let sig = |s: String| {
           if clobber || clobber_rich {
-            "source-phase-import-of-loaded-specifier-clobbers-its-slot".to_string()
+            // identified by what goes wrong in the clobber world, so that a
+            // different defect in such a world is not swallowed as known
+            format!("source-phase-import-of-loaded-specifier-clobbers-its-slot:{s}")
           } else {
             s
           }
